@@ -108,7 +108,7 @@ def _call(mon, case, which, ref, hyp, **over):
     zero_dim = (case["R"] == 0 or case["H"] == 0) and case["eos"] is not None
     zero_dim = zero_dim or (case["H"] == 0 and which == "prefix_edit_distances" and case["exclude_last"])
     documented = (RuntimeError, IndexError) if zero_dim else ()
-    with warnings.catch_warnings():
+    with warnings.catch_warnings(), G.process_mode(case):
         warnings.simplefilter("ignore")
         if case["form"] == "module":
             cls = M.EditDistance if which == "edit_distance" else M.PrefixEditDistances
